@@ -31,7 +31,7 @@ TOKEN_RX = re.compile(r"""
   | (?P<str>b?"(?:[^"\\]|\\.)*")
   | (?P<chr>b?'(?:[^'\\]|\\.)')
   | (?P<life>'[A-Za-z_]\w*)
-  | (?P<num>0x[0-9A-Fa-f_]+(?:_?[iu](?:8|16|32|64|128|size))?|[0-9][0-9_]*(?:\.[0-9]+)?(?:_?(?:[iu](?:8|16|32|64|128|size)|f32|f64))?)
+  | (?P<num>0b[01_]+(?:_?[iu](?:8|16|32|64|128|size))?|0x[0-9A-Fa-f_]+(?:_?[iu](?:8|16|32|64|128|size))?|[0-9][0-9_]*(?:\.[0-9]+)?(?:_?(?:[iu](?:8|16|32|64|128|size)|f32|f64))?)
   | (?P<id>[A-Za-z_]\w*)
   | (?P<op><<=|>>=|\.\.=|::|->|=>|==|!=|<=|>=|&&|\|\||<<|>>|\+=|-=|\*=|/=|%=|\|=|&=|\^=|\.\.|[-+*/%&|^!<>=.,;:()\[\]{}?#@])
 """, re.X | re.S)
@@ -87,6 +87,78 @@ def function_source(src, fn_name, after_rx=None):
             if d == 0:
                 return sig, src[i + 1:j]
     raise Untranslatable("unbalanced braces")
+
+
+def enum_decl(src, name):
+    """variants of `enum <name>`: list of (variant, fields or None, discriminant text or None);
+    fields = [(field name or None, type text)]"""
+    m = re.search(r"\benum\s+%s\b[^{]*\{" % re.escape(name), src)
+    if not m:
+        raise Untranslatable(f"enum {name} not found")
+    i = m.end()
+    depth = 1
+    j = i
+    while depth:
+        c = src[j]
+        depth += (c == "{") - (c == "}")
+        j += 1
+    body = re.sub(r"//[^\n]*|/\*.*?\*/", "", src[i:j - 1], flags=re.S)
+    # split on top-level commas
+    parts, cur, d = [], "", 0
+    for c in body:
+        if c in "({<[":
+            d += 1
+        elif c in ")}>]":
+            d -= 1
+        if c == "," and d == 0:
+            parts.append(cur)
+            cur = ""
+        else:
+            cur += c
+    parts.append(cur)
+    out = []
+    for part in parts:
+        part = re.sub(r"#\[[^\]]*\]", "", part).strip()
+        if not part:
+            continue
+        vm = re.match(r"(\w+)\s*(.*)$", part, re.S)
+        vname, rest = vm.group(1), vm.group(2).strip()
+        if rest.startswith("{"):
+            inner = rest[1:rest.rindex("}")]
+            fields, cur, d = [], "", 0
+            for c in inner + ",":
+                if c in "({<[":
+                    d += 1
+                elif c in ")}>]":
+                    d -= 1
+                if c == "," and d == 0:
+                    if cur.strip():
+                        fn, ft = cur.split(":", 1)
+                        fields.append((fn.strip().split()[-1], " ".join(ft.split())))
+                    cur = ""
+                else:
+                    cur += c
+            out.append((vname, fields, None))
+        elif rest.startswith("("):
+            inner = rest[1:rest.rindex(")")]
+            fields, cur, d = [], "", 0
+            for c in inner + ",":
+                if c in "({<[":
+                    d += 1
+                elif c in ")}>]":
+                    d -= 1
+                if c == "," and d == 0:
+                    if cur.strip():
+                        fields.append((None, " ".join(cur.split())))
+                    cur = ""
+                else:
+                    cur += c
+            out.append((vname, fields, None))
+        elif rest.startswith("="):
+            out.append((vname, None, rest[1:].strip()))
+        else:
+            out.append((vname, None, None))
+    return out
 
 
 # ------------------------------------------------------------------ parser (AST = nested tuples)
@@ -258,6 +330,23 @@ class Parser:
                     continue
                 path.append(self.eat()[1])
             args = None
+            if self.at("{") and path[-1][0].isupper():
+                self.eat("{")
+                fields = []
+                while not self.at("}"):
+                    if self.at(".."):
+                        self.eat()
+                        continue
+                    fname = self.eat()[1]
+                    sub = ("pvar", fname)
+                    if self.at(":"):
+                        self.eat()
+                        sub = self.pattern()
+                    fields.append((fname, sub))
+                    if self.at(","):
+                        self.eat()
+                self.eat("}")
+                return ("pstruct", path, fields)
             if self.at("("):
                 self.eat()
                 args = []
@@ -347,8 +436,12 @@ class Parser:
                 continue
             if v == "as" and k == "id":
                 self.eat()
-                ty = self.type_text()
-                e = ("cast", e, ty)
+                # a simple type path (the target of a cast): idents, `::`, one generic argument list
+                parts = [self.eat()[1]]
+                while self.at("::"):
+                    self.eat()
+                    parts.append(self.eat()[1])
+                e = ("cast", e, "::".join(parts))
                 continue
             return e
 
@@ -516,7 +609,7 @@ WRAP_TYPES_DEFAULT = {"Offset", "Size", "ASize", "EntryIdx", "EntryCount", "Byte
                       "VariantCount", "ClusterCount", "ContentCount", "BlobCount", "EntryStoreIdx", "ValueStoreIdx",
                       "IndexIdx", "IndexCount", "EntryStoreCount", "ValueStoreCount", "Count", "Idx", "u8", "u16", "u32",
                       "u64", "usize", "i64", "ContentInfo"}
-ERASED_METHODS_DEFAULT = {"into", "into_u64", "into_u32", "into_u16", "into_u8", "into_usize", "into_base", "clone", "unwrap",
+ERASED_METHODS_DEFAULT = {"as_str", "as_slice", "into", "into_u64", "into_u32", "into_u16", "into_u8", "into_usize", "into_base", "clone", "unwrap",
                           "try_into", "to_owned", "borrow", "as_ref", "get", "copied", "expect"}
 
 
@@ -524,6 +617,8 @@ def int_literal(text):
     t = re.sub(r"_?(?:[iu](?:8|16|32|64|128|size)|f32|f64)$", "", text).replace("_", "")
     if t.lower().startswith("0x"):
         return str(int(t, 16))
+    if t.lower().startswith("0b"):
+        return str(int(t[2:], 2))
     if "." in t:
         raise Untranslatable("float literal " + text)
     return str(int(t))
@@ -735,6 +830,14 @@ class Emitter:
             return int_literal(p[1])
         if p[0] == "ptuple":
             return "(" + ", ".join(self.pat(x) for x in p[1]) + ")"
+        if p[0] == "pstruct":
+            pt = self.path_text(p[1])
+            sp = self.cfg.get("struct_patterns", {})
+            if pt not in sp:
+                raise Untranslatable("struct pattern not mapped: " + pt)
+            ctor, order = sp[pt]
+            d = dict(p[2])
+            return "(" + ctor + "".join(" " + (self.pat(d[f]) if f in d else "_") for f in order) + ")"
         if p[0] == "ppath":
             pt = self.path_text(p[1])
             pm = self.cfg.get("patterns", {})
@@ -784,11 +887,14 @@ class Emitter:
         kind = s[0]
         if kind == "empty":
             return cont(scope)
-        w = self.write_stmt(s) if kind in ("expr", "assign") else None
+        w = self.write_stmt(s) if kind in ("expr", "assign", "let") else None
         if w is not None:
+            after = cont(scope)
+            if kind == "expr" and not s[2] and not rest and k is None and kv is None:
+                after = self.ret("out")
             if w[0] == "one":
-                return f"let out := out ++ [({w[1]}, {w[2]})]\n{cont(scope)}"
-            return f"let out := out ++ {w[1]}\n{cont(scope)}"
+                return f"let out := out ++ [({w[1]}, {w[2]})]\n{after}"
+            return f"let out := out ++ {w[1]}\n{after}"
         if kind == "for" and self.cfg.get("writes"):
             key = self.rust_text(s[2])
             body_sts = [x for x in s[3][1] if x[0] != "empty"]
@@ -815,6 +921,9 @@ class Emitter:
             return (f"let {tup} := ({lst}).foldl (fun {tup} {var} =>\n{indent(body_text, 4)}) {tup}\n"
                     f"{cont(scope)}")
         if kind == "let" and self.cfg.get("writes") and s[1] == ("pvar", "written"):
+            if s[2] is not None and s[2][0] in ("match", "if", "iflet", "block"):
+                # `let mut written = match … { … }`: the arms write; their value is not needed
+                return self.stmts([("expr", s[2], True)] + rest, k, scope, kv)
             return cont(scope)
         if kind == "let":
             _, pat, init, mut, ty, els = s
@@ -874,15 +983,22 @@ class Emitter:
                 else:
                     el = self.stmts(e[4][1] if e[4][0] == "block" else [("expr", e[4], semi)], (lambda sc: cont(sc)) if (rest or k or semi) else None, scope)
                 return f"match {self.ex(e[2])} with\n| {self.pat(e[1])} =>\n{indent(th)}\n| _ =>\n{indent(el)}"
-            if e[0] == "match" and (rest or k or semi or self.has_loop or self.diverges(e)):
-                def body_fn(body):
+            if e[0] == "match" and (rest or k or semi or self.has_loop or self.diverges(e) or self.cfg.get("writes")):
+                lines = [f"match {self.ex(e[1])} with"]
+                for pats, guard, body in e[2]:
+                    if guard is not None:
+                        raise Untranslatable("match guard")
                     b = body[1] if body[0] == "block" else [("expr", body, False)]
-                    return "\n" + indent(self.stmts(b, (lambda sc: cont(sc)) if (rest or k or semi) else None, scope))
-                return self.match_value(e, body_fn).replace(" | ", "\n| ")
+                    names = [n for p_ in pats for n in self.pat_names(p_)]
+                    text = self.stmts(b, (lambda sc: cont(sc)) if (rest or k or semi) else None, scope + names, tail_kv)
+                    lines.append("| " + " | ".join(self.pat(p_) for p_ in pats) + " =>\n" + indent(text))
+                return "\n".join(lines)
             if e[0] == "block":
                 if tail_kv:
                     return self.stmts(e[1], None, scope, tail_kv)
                 return self.stmts(e[1] + rest, k, scope, kv)
+            if not semi and not rest and self.cfg.get("writes") and e == ("path", ["written"]) and (k is not None):
+                return cont(scope)
             if not semi and not rest:
                 # tail expression of the list
                 if kv is not None:
@@ -930,6 +1046,8 @@ class Emitter:
                 return ("one", self.ex(e[3][0]), str(int(m.group(1)) // 8))
             if e[2] == "write_usized" and len(e[3]) == 2:
                 return ("one", self.ex(e[3][0]), self.ex(e[3][1]))
+            if e[2] == "write_isized" and len(e[3]) == 2:
+                return ("one", f"(Int.toNat ({self.ex(e[3][0])} % 18446744073709551616))", self.ex(e[3][1]))
         if e[0] == "call" and e[1][0] == "path" and e[1][1] == ["PString", "serialize_string"] and len(e[2]) == 2:
             b = self.ex(e[2][0])
             return ("list", f"[(({b}).length, 1), (leNat ({b}), ({b}).length)]")
@@ -959,8 +1077,10 @@ class Emitter:
 
     def write_stmt(self, s):
         """the write performed by statement `s` (expression statement or `written += …`), or None"""
-        if s[0] == "expr" and s[2]:
+        if s[0] == "expr" and (s[2] or self.cfg.get("writes")) and s[1][0] in ("try", "mcall", "call"):
             return self.write_of(s[1])
+        if s[0] == "let" and s[1] == ("pvar", "written") and s[2] is not None and s[2][0] in ("try", "mcall", "call") and self.cfg.get("writes"):
+            return self.write_of(s[2])
         if s[0] == "assign" and s[1] == "+=" and s[2][0] == "path" and s[2][1] == ["written"]:
             return self.write_of(s[3])
         return None
@@ -1036,6 +1156,8 @@ class Emitter:
             return [n for x in p[1] for n in self.pat_names(x)]
         if p[0] == "ppath" and p[2]:
             return [n for x in p[2] for n in self.pat_names(x)]
+        if p[0] == "pstruct":
+            return [n for _, x in p[2] for n in self.pat_names(x)]
         return []
 
     # ---- a normalised rendering of Rust expressions (keys of the override tables)
